@@ -81,9 +81,14 @@ PROPS = {
     },
     'C06': {
         'verus': [U_PER, U_UPER, U_BITS_DEP],
-        'search_groups': ['per', 'charset'],
+        'search_groups': ['per', 'charset', 'strings'],
+        'bounded_search': [('strings', 'BOUNDED stand-in for the BODIES of write_utf8string / write_ia5string / write_numeric_string / write_printable_string / write_visible_string (str::chars() loops outside Verus; '
+                                       'only their protocol-level contract is assumed in unit uper): through the real Writer API, 5 string types x 5 SIZE constraint variants (none, 1..4, 2..2, 0..3 extensible, 2..3) x every string of '
+                                       'length <= 4 (and a stride through length 5) over a probe alphabet of edge characters and their invalid neighbours: Ok ==> alphabet and SIZE admissible and the value reads back unchanged; '
+                                       'a character outside the alphabet or a count outside a non-extensible SIZE ==> Err; an admissible value is not rejected')],
         'kani_quick': [('charset_is_valid', 120, True)],
-        'assumptions': PER_ASSUMPTIONS + ['UperWriter::write_extensible_bit_and_length_or_err and the restricted-string writers (chars() loops) are covered at the PackedWrite level only in this check'],
+        'assumptions': PER_ASSUMPTIONS + ['UperWriter::write_extensible_bit_and_length_or_err is under contract in unit uper; the BODIES of the restricted-string writers (chars() loops) are not: their SIZE / alphabet checks are covered by the bounded stand-in `strings` '
+                                          '(exhaustive within its stated bound, never counted as discharged) and, below them, by the verified PackedWrite layer and the complete Kani proof of Charset::is_valid'],
         'trusted_base': COMMON_TRUSTED + PER_TRUSTED + KANI_TRUSTED,
         'explanation': 'For every PackedWrite entry point the post-condition r is Ok ==> admissible(args) is verified (INTEGER range incl. single-value ranges, '
                        'length determinant bounds, SIZE of octet/bit strings, CHOICE/ENUMERATED index), with the error kind and "nothing written" on rejection; '
